@@ -60,6 +60,13 @@ def load_index(prop, _depth=0):
         raise MachineryError("no obligations/%s/index.json" % prop)
     idx = json.load(open(p))
     idx.setdefault("jobs", [])
+    # additional job files of the same property (index_*.json), e.g. written by another engineer
+    for extra in sorted(glob.glob(os.path.join(VERIF, "obligations", prop, "index_*.json"))):
+        e = json.load(open(extra))
+        idx["jobs"] += e.get("jobs", [])
+        for k in ("assumptions", "not_decided", "paper_steps", "include_jobs"):
+            if e.get(k):
+                idx[k] = idx.get(k, []) + e[k]
     # jobs owned by another property that also carry part of this one (e.g. C12/C19 are cross-cutting):
     # {"job": "C09.memRead", "variant": {...overrides...}, "id": "C12.memRead"}
     for inc in idx.get("include_jobs", []):
